@@ -191,7 +191,9 @@ func (r *recorder) WriteString(s string) (n int, err error) {
 func (r *recorder) ReadFrom(src io.Reader) (n int64, err error) {
 	if rf, ok := r.ResponseWriter.(io.ReaderFrom); ok {
 		n, err = rf.ReadFrom(src)
-		if err == nil {
+		// Account for what the underlying writer accepted, whether or not the copy ended with an error,
+		// so that the fast path reports the same size and written state as the fallback path.
+		if n > 0 {
 			if r.size == notWritten {
 				r.size = 0
 			}
